@@ -13,11 +13,18 @@ Two halves:
              | verbatim* letters [ `{` separator `}` ] verbatim*
     verbatim ::= any character except `{ } _` and letters | `{` balanced text `}`
     letters  ::= one of f ff l ll v vv j jj, in either case
+  where "letter" is read as the code does (`isFmtCh`, `Model/NameFormatChars.lean`): a word
+  character of the running interpreter (`\w`) other than a decimal digit and `_` — the letters
+  of every script and the non-decimal numerics such as `²`; a maximal run of such characters
+  at brace level 1 must be one of the eight legal runs (BibTeX itself is an 8-bit program; the
+  property is silent about non-ASCII, so the reference follows the code there).  A letter of a
+  *name* (first letter when abbreviating) is `str.isalpha` of the interpreter (`isAlphaN`).
 * the **formatting rule** on the parsed shape (`formatPart`, `formatPieces`).
 -/
-import PybtexModel.Model.Names
+import PybtexModel.Model.NameFormatChars
 
 namespace Pybtex.Spec.NameFormat
+open Pybtex.NFChars
 
 /-! ### the parsed shape -/
 
@@ -62,7 +69,7 @@ deriving DecidableEq, Repr
 /-! ### the grammar -/
 
 /-- characters that may stand in the pre- or post-text of a part outside nested braces -/
-def isVerbChar (c : Char) : Bool := c ≠ '{' && c ≠ '}' && c ≠ '_' && !isAlpha c
+def isVerbChar (c : Char) : Bool := c ≠ '{' && c ≠ '}' && c ≠ '_' && !isFmtCh c
 
 /-- `group d s`: `s` continues a braced group in which `d` nested groups are open; the text up
 to the closing brace of the group, and the input after that brace.  `none`: never closed. -/
@@ -96,11 +103,11 @@ def parsePart (s : Str) : Option (Part × Str) :=
   | [] => none                                   -- the part is never closed
   | c :: rest =>
     if c = '}' then some (⟨pre, none, none, []⟩, rest)      -- no letters
-    else if isAlpha c then
-      match decodeLetters (s1.takeWhile isAlpha) with
+    else if isFmtCh c then
+      match decodeLetters (s1.takeWhile isFmtCh) with
       | none => none                             -- illegal letters
       | some l =>
-        let s2 := s1.dropWhile isAlpha
+        let s2 := s1.dropWhile isFmtCh
         -- a braced group *immediately* after the letters is the explicit separator
         let sepRest : Option (Option Str × Str) :=
           match s2 with
@@ -167,9 +174,9 @@ theorem parsePart_length {s rest : Str} {p : Part} (h : parsePart s = some (p, r
       · split at h
         · cases h
         · rename_i l hl
-          have h2 : ((c :: rest1).dropWhile isAlpha).length ≤ (c :: rest1).length :=
+          have h2 : ((c :: rest1).dropWhile isFmtCh).length ≤ (c :: rest1).length :=
             (List.dropWhile_sublist _).length_le
-          generalize (c :: rest1).dropWhile isAlpha = s2 at h h2
+          generalize (c :: rest1).dropWhile isFmtCh = s2 at h h2
           split at h
           · cases h
           · rename_i sep s3 hsr
@@ -257,7 +264,7 @@ def tokens (p : Person) : Slot → List Str
 /-- a special character: the inner text `\…` of a brace-level-1 group (more than the lone backslash) -/
 def isSpecialTok (t : Tok) : Bool := t.1.head? = some '\\' && t.1 ≠ ['\\']
 /-- a letter token -/
-def isLetterTok (t : Tok) : Bool := t.1 ≠ [] && t.1.all isAlpha
+def isLetterTok (t : Tok) : Bool := t.1 ≠ [] && t.1.all isAlphaN
 
 /-- first letter or special character (written back with its braces) of a text; empty if
 there is none; `none` beyond BibTeX's nesting limit. -/
@@ -272,6 +279,14 @@ piece (pieces without one are skipped), joined by `.-` or by the explicit separa
 def abbreviate (sep : Option Str) (tok : Str) : Option Str :=
   ((splitTex .hyphen tok).mapM firstLetter).map fun ls =>
     joinWith (match sep with | some s => s | none => ['.', '-']) (ls.filter (· ≠ []))
+
+/-- the initial of a brace-free piece of a token: its first letter (`str.isalpha`), as a text;
+empty if the piece has no letter.  (Property-level reading of `firstLetter` on plain text, used
+by `C11_hyphen_abbreviation`.) -/
+def initial (piece : Str) : Str :=
+  match piece.find? isAlphaN with
+  | some c => [c]
+  | none => []
 
 /-- `t₀ ++ sepAt i ++ t₁ ++ sepAt (i+1) ++ t₂ …` -/
 def interleave (sepAt : Nat → Str) : Nat → List Str → Str
@@ -345,7 +360,7 @@ deriving DecidableEq, Repr
 end Pybtex.Spec.NameFormat
 
 namespace Pybtex.Spec
-open NameFormat
+open NameFormat Pybtex.NFChars
 
 /-- `format.name$` on one name. -/
 def formatName (name fmt : Str) : Outcome :=
@@ -374,8 +389,8 @@ def wellformedAux : Nat → Bool → Bool → Str → Bool
   | d, seen, prev, c :: r =>
     if c = '{' then wellformedAux (d + 1) (d ≠ 0 && seen) false r
     else if c = '}' then d ≠ 0 && wellformedAux (d - 1) seen false r
-    else if d = 1 ∧ isAlpha c then
-      (prev || (!seen && legalLetters ((c :: r).takeWhile isAlpha))) && wellformedAux 1 true true r
+    else if d = 1 ∧ isFmtCh c then
+      (prev || (!seen && legalLetters ((c :: r).takeWhile isFmtCh))) && wellformedAux 1 true true r
     else if d = 1 ∧ c = '_' then false
     else wellformedAux d seen false r
 
